@@ -1094,6 +1094,11 @@ func largeKeys(t *testing.T, prop string, bads []string) {
 					if (pos+pat+bi)%2 == 1 && size > 22 {
 						continue
 					}
+					// string keys in half of the cells (the bad key is then a number or null)
+					strKeys := (pos+bi)%2 == 0
+					if strKeys && bad == `"x"` {
+						bad = "7"
+					}
 					elems := make([]string, size)
 					for i := range elems {
 						var k int
@@ -1113,6 +1118,8 @@ func largeKeys(t *testing.T, prop string, bads []string) {
 							} else {
 								elems[i] = fmt.Sprintf(`{"k":%s,"i":%d}`, bad, i)
 							}
+						} else if strKeys {
+							elems[i] = fmt.Sprintf(`{"k":"s%05d","i":%d}`, k, i)
 						} else {
 							elems[i] = fmt.Sprintf(`{"k":%d,"i":%d}`, k, i)
 						}
